@@ -25,7 +25,7 @@ theorem pValue_marshalP_rootObj (kvs : List (Str × Yson)) (f : Nat) (rest : Str
     have hm := pMembers_marshalP ((k, x) :: r) f' rest (List.cons_ne_nil _ _) hw hs (by omega)
     obtain ⟨T', hT'⟩ := joinWith_cons_exists (keyPiece k ++ marshalP x) (marshalPKvs r) (125 :: rest)
     simp only [marshalPKvs] at hm
-    have hk : keyPiece k ++ marshalP x ++ T' = 34 :: (k ++ 34 :: 58 :: (marshalP x ++ T')) := by simp [keyPiece]
+    have hk : keyPiece k ++ marshalP x ++ T' = 34 :: (quoteBody k ++ 34 :: 58 :: (marshalP x ++ T')) := by simp [keyPiece, quote]
     rw [hT', hk] at hm
     have := pValue_obj hm
     rw [← hk, ← hT'] at this
